@@ -17,6 +17,7 @@ import sys
 import time
 
 TREE = "/tmp/mut/tree"
+VERIF = os.path.dirname(os.path.dirname(os.path.abspath(__file__)))  # the /verif this script belongs to (a snapshot under vp run)
 REGIONS = [
     # (file, first line, last line, checks)
     ("pyrefact/processing.py", 628, 747, ["C10", "C06", "C14", "C20", "C03"]),
@@ -131,7 +132,7 @@ def main():
         rec["verdict"] = "survived"
         for chk in checks:
             t0 = time.time()
-            p = sh("cd /verif && VERIF_SEED=1 VERIF_REPO=%s ./check %s quick 2>&1 | grep -E '^(VIOLATION|HARNESS-ERROR)' | head -3" % (TREE, chk))
+            p = sh("cd %s && VERIF_SEED=1 VERIF_REPO=%s ./check %s quick 2>&1 | grep -E '^(VIOLATION|HARNESS-ERROR)' | head -3" % (VERIF, TREE, chk))
             viol = [l for l in p.stdout.splitlines() if l.startswith("VIOLATION")]
             herr = [l for l in p.stdout.splitlines() if l.startswith("HARNESS-ERROR")]
             rec["checks"][chk] = {"violations": len(viol), "harness_errors": len(herr), "s": round(time.time() - t0)}
